@@ -49,6 +49,8 @@ def run(ctx):
     # "exactly what the environment provides": Finalize (appended to every experiment pipeline) re-encodes actions through Repr's row memo
     from . import c10
     c10.r7_row_memo(ctx, rule="C06.R9")
+    # the action handed to learn / recorded is the one the learner named, in every batch layout
+    c15.r11_arm_agreement(ctx, ctx.fn(c15.SAF, "SafeLearner._parse_pred"), rule="C06.R11")
 
 
 # ================================================================================================
@@ -195,6 +197,8 @@ class Specialiser:
         ctx.rule("C06.R3", "provenance: learn() receives (context, chosen/logged action, the environment's reward for it, the "
                            "learner's/logged probability, **kwargs) and the recorded reward/action/probability are those values")
         ctx.rule("C06.R4", "predict dominates learn, neither is in an inner loop, one row is yielded per interaction")
+        ctx.rule("C06.R10", "one row per interaction on batched data too: in every batched configuration the learner's recorded outputs (action, probability) "
+                            "carry the batch marker, so that the final Unbatch splits the row whatever else is recorded")
         ctx.assume("C06.R2: a non-None reward object / reward batch is truthy (Batch never emits an empty batch), so "
                    "`len(x) if x else len(y)` takes its first arm whenever x is not None")
         ctx.assume("C06: configuration flags (has_*, out_*, lrn_*, val_*, should_pred, learn_type, eval_type, targets) are assigned once "
@@ -226,7 +230,8 @@ class Specialiser:
         ctx.configurations = self.n_configs
         ctx.note(f"C06: {self.n_configs} configurations -> {n_sig} distinct pruned control-flow signatures analysed ({jobs} processes)")
         ctx.floor("C06.R1", "distinct specialised CFGs", n_sig, 50)
-        for rid, what in (("C06.R1", "definite assignment"), ("C06.R2", "nullness"), ("C06.R3", "provenance"), ("C06.R4", "predict/learn order")):
+        for rid, what in (("C06.R1", "definite assignment"), ("C06.R2", "nullness"), ("C06.R3", "provenance"), ("C06.R4", "predict/learn order"),
+                          ("C06.R10", "batch marker of recorded learner outputs")):
             ctx.ob(rid, SEQ, "SequentialCB._results", self.loop, f"{what} analysed on {n_sig} specialised CFGs ({self.n_configs} configurations)",
                    True, stmt=f"{what}: coverage", detail={"signatures": n_sig, "configurations": self.n_configs,
                                                             "violations": sum(1 for o in ctx.obs if o.rule == rid and not o.ok)})
@@ -450,6 +455,8 @@ class Specialiser:
             return repr(e.value)
         if isinstance(e, ast.Subscript):
             return f"{self.term(e.value, fe, terms)}[{self.term(e.slice, fe, terms)}]"
+        if isinstance(e, ast.Call) and unparse(e.func) == "Batch.List" and len(e.args) == 1 and not e.keywords:
+            return self.term(e.args[0], fe, terms)  # the batch marker wraps the same values
         if isinstance(e, ast.Call):
             args = [("*" + self.term(a.value, fe, terms)) if isinstance(a, ast.Starred) else self.term(a, fe, terms) for a in e.args]
             args += [(f"**{self.term(k.value, fe, terms)}" if k.arg is None else f"{k.arg}={self.term(k.value, fe, terms)}") for k in e.keywords]
@@ -514,6 +521,16 @@ class Specialiser:
                 got = self.term(x.value, lfe, terms)
                 if k in want_out and want_out[k] is not None and got != want_out[k]:
                     report(f"out[{k}]", x, f"recorded {k} is the value of this interaction's predict/reward look-up", {"got": got, "want": want_out[k]})
+                if k in ("action", "probability") and batched:
+                    v = x.value
+                    while isinstance(v, ast.IfExp) and lfe.test(v.test) in (True, False):
+                        v = v.body if lfe.test(v.test) else v.orelse
+                    if not (isinstance(v, ast.Call) and unparse(v.func).startswith("Batch.")):
+                        key = ("R10", k)
+                        if key not in reported:
+                            reported.add(key)
+                            ctx.ob("C06.R10", SEQ, "SequentialCB._results", x, f"on batched data the recorded {k} carries the batch marker, so that Unbatch yields one row per interaction "
+                                   "whatever else is recorded", False, detail={"configuration": self.cfg_desc(cfg), "value": unparse(x.value)}, stmt=f"batched out[{k}]")
                 if k == "reward" and k in want_out and want_out[k] is None:
                     ok = got.startswith("ite(") or ("learner.score(" in got and f"{I}['action']" in got)
                     if not ok:
@@ -612,6 +629,7 @@ def r6_wiring(ctx):
 
 
 CONTROLS = [
+    ("recorded action loses the batch marker", SEQ, M.replace_expr("SequentialCB._results", "on_act if not batched else Batch.List(on_act)", "on_act"), "C06.R10"),
     ("identity test dropped before the PMF look-alike", "coba/safety.py", M.delete_stmt("SafeLearner.pred_format", M.text_has("if any((std_pred[0] is action for action in actions)): return 'AX'")), "C06.R8"),
     ("Repr memo keyed by the first action only", "coba/environments/filters.py", M.replace_expr("Repr.filter", "row != prev_row", "prev_row is None or row[0] != prev_row[0]"), "C06.R9"),
     ("learn with logged prob", SEQ, M.replace_expr("SequentialCB._results", "learner.learn(context, on_act, learn_reward, on_pr, **on_kw)",
